@@ -122,6 +122,18 @@ def _boost_solvers(spec, rng):
     _walk(spec['tree'], fn)
 
 
+def _direct_linear(spec):
+    """While a total coloring is computed the partials are replaced by random numbers: the loops are no longer
+    contractions, nested iterative LINEAR solvers then run maxiter^depth sweeps.  Histories that compute colorings
+    therefore use direct linear solvers only."""
+    has_mf = any(c.get('matfree') for c in spec['comps'])
+
+    def fn(node):
+        if node.get('ln', {}).get('type') in ('lnbgs', 'lnbj', 'krylov', 'krylov+lnbgs'):
+            node['ln'] = {'type': 'direct', 'assemble_jac': False}
+    _walk(spec['tree'], fn)
+
+
 def _avoid_known_c08(spec):
     """array ref0 + scalar ref + src_indices subset makes final_setup raise (recorded C08 finding): give such
     outputs an array ref as well."""
@@ -218,7 +230,7 @@ def _gen_op(rng, kind, spec, cfg, tabs):
         else:
             op['step'] = rng.choice([None, 1e-30])
         op['show_only_incorrect'] = rng.random() < 0.2
-        op['force_dense'] = rng.random() < 0.8
+        op['force_dense'] = True    # (False + sparse partials: AttributeError in get_tol_violation - not C31)
         if rng.random() < 0.3:
             op['includes'] = ['*' + rng.choice([c['name'] for c in spec['comps'] if c['kind'] != 'ivc'])]
     elif kind == 'check_totals':
@@ -312,6 +324,9 @@ def make_plan(seed):
     spec = G.gen_spec(rng, opts)
     _boost_solvers(spec, rng)
     _avoid_known_c08(spec)
+    colorable = rng.random() < 0.5
+    if colorable:
+        _direct_linear(spec)
     tabs = _var_tables(spec)
     outs, ins, params = tabs
     sizes = {v['name']: int(np.prod(v['shape'])) for v in outs + params}
@@ -319,7 +334,8 @@ def make_plan(seed):
     lns = sorted(set(ln for _, ln in tree_solvers(spec)))
     cfg = {'mode': rng.choice(['fwd', 'rev', 'fwd', 'rev', 'auto']),
            'fac': rng.random() < 0.5,
-           'coloring': rng.random() < 0.35,
+           'colorable': colorable,
+           'coloring': colorable and rng.random() < 0.6,
            'discrete': rng.random() < 0.6 and spec['tree']['nl']['type'] not in ('newton', 'broyden'),
            'approx_totals': None}
     # root approx_totals (model-level fd/cs); full-model Broyden/Newton at the root would then approximate the
@@ -383,7 +399,10 @@ def make_plan(seed):
         elif r < 0.41:
             hist.append({'op': 'rerun', 'keep': True})
         else:
-            op = _gen_op(rng, rng.choice(RO_KINDS), spec, cfg, tabs)
+            kind = rng.choice(RO_KINDS)
+            if kind == 'coloring' and not cfg['colorable']:
+                kind = 'compute_totals'
+            op = _gen_op(rng, kind, spec, cfg, tabs)
             op['keep'] = rng.random() < 0.25
             hist.append(op)
     # closing probes: new point -> run -> totals (kept in both histories)
@@ -507,6 +526,15 @@ def _zero_linear(model):
     model._doutputs.set_val(0.0)
     model._dresiduals.set_val(0.0)
     model._dinputs.set_val(0.0)
+
+
+def _save_linear(model):
+    return [v.asarray(copy=True) for v in (model._doutputs, model._dresiduals, model._dinputs)]
+
+
+def _restore_linear(model, saved):
+    for v, a in zip((model._doutputs, model._dresiduals, model._dinputs), saved):
+        v.set_val(a)
 
 
 class Snap:
@@ -739,7 +767,7 @@ class HistoryRun:
             kw['units'] = op['units']
         prob.set_val(op['name'], val, **kw)
 
-    def run(self, include=None, zero_lin_after=()):
+    def run(self, include=None, keep_lin_across=()):
         plan = self.plan
         cfg = plan['cfg']
         from omv.gen.c31_kit import discrete_restore
@@ -803,16 +831,24 @@ class HistoryRun:
                     else:
                         lab = _label(op, cfg)
                         before = Snap(model)
+                        lin = _save_linear(model) if i in keep_lin_across else None
                         try:
                             res = _query(prob, op, plan)
+                            self.count('obs:' + lab)
                         except Exception as e:  # noqa
-                            if os.environ.get('OMV_DEBUG'):
-                                import traceback
-                                traceback.print_exc()
-                            self.exc.append((exc_key(lab, e), '%s: %s' % (type(e).__name__, str(e)[:300]), i))
-                            return self
+                            from openmdao.utils.om_warnings import OMInvalidCheckDerivativesOptionsWarning
+                            if isinstance(e, OMInvalidCheckDerivativesOptionsWarning):
+                                # documented refusal: check options identical to the approximation's own options
+                                self.count('obs:check-refused-same-options')
+                                res = None
+                            else:
+                                if os.environ.get('OMV_DEBUG'):
+                                    import traceback
+                                    traceback.print_exc()
+                                self.exc.append((exc_key(lab, e), '%s: %s' % (type(e).__name__,
+                                                                              str(e)[:300].replace('\n', ' ')), i))
+                                return self
                         after = Snap(model)
-                        self.count('obs:' + lab)
                         if stale:
                             self.count('obs:stale-query')
                         if before.discrete:
@@ -826,8 +862,8 @@ class HistoryRun:
                                 key = '%s:%s-changed%s' % (lab, which, ':stale-model' if stale else '')
                             self.ro_viol.append((key, '%s changed across %s: %s' % (which, lab, txt), i))
                             self.changed_at.add(i)
-                        if i in zero_lin_after:
-                            _zero_linear(model)
+                        if lin is not None:
+                            _restore_linear(model, lin)
                         if op.get('keep'):
                             self.results[i] = copy.deepcopy(res)
         finally:
@@ -969,7 +1005,7 @@ def run_case(case, acc):
 
 def _find_culprit(plan, keep, a_only, i0, a_only_before):
     """which single query call (made only in history A, before step i0) reproduces the discrepancy at step i0?
-    Diagnosis by intervention: if zeroing the LINEAR vectors right after that call removes the discrepancy, the
+    Diagnosis by intervention: if putting the LINEAR vectors back right after that call removes the discrepancy, the
     mechanism is the left-over content of the linear vectors (initial guess of iterative linear solvers)."""
     cfg = plan['cfg']
     hist = plan['hist']
@@ -983,7 +1019,7 @@ def _find_culprit(plan, keep, a_only, i0, a_only_before):
             if r1.exc or i0 not in r1.results:
                 continue
             if any(i == i0 for i, _, _ in _compare(plan, r1, ref, aob)):
-                r2 = HistoryRun(plan).run(include=set(keep) | {j}, zero_lin_after={j})
+                r2 = HistoryRun(plan).run(include=set(keep) | {j}, keep_lin_across={j})
                 if not r2.exc and not any(i == i0 for i, _, _ in _compare(plan, r2, ref, aob)):
                     return 'leftover-linear-vectors:' + _label(hist[j], cfg)
                 return _label(hist[j], cfg)
